@@ -131,11 +131,11 @@ def _r123(prog, rep):
         init = rec.init
         applicable = m.II if rec.acc_empty else m.SI
         e_app = rec.e_init if rec.acc_empty else rec.e_sub
-        if init == ("call", "From::from", (("str", ""),)):
+        if init == ("adt", "std::borrow::Cow", "Borrowed", (("0", ("str", "")),)):
             r3.check(True, "borrow-start", "without indent the line starts as Cow::from(\"\")", D(init), "")
         elif init is not None and init[0] == "adt" and init[2] == "Owned":
             inner = init[3][0][1]
-            okown = inner[0] == "call" and inner[1] in ("ToOwned::to_owned", "String::from", "From::from") and inner[2][0] in (m.II, m.SI)
+            okown = inner[0] == "call" and inner[1] == "String::from" and inner[2][0] in (m.II, m.SI)
             r2.check(okown, "indent-start", "otherwise the line starts as the owned indent", D(init),
                      "the line under construction starts as %s" % D(init), site=site)
             src = inner[2][0] if okown else None
@@ -169,7 +169,7 @@ def _r4(prog, rep):
     D = lambda t: describe(t, body)[:140]
     LINE = ("param", 1, body.arg_names.get(1, "_1"))
     pushes = [(b, [prog.simp(a, body) for a in s.call_args(b)]) for b, t, c in body.calls() if c.name == "Vec::push"]
-    want = ("call", "From::from", (("call", "str::trim_end_matches", (LINE, SP)),))
+    want = ("adt", "std::borrow::Cow", "Borrowed", (("0", ("call", "str::trim_end_matches", (LINE, SP))),))
     r.check(len(pushes) == 1 and pushes[0][1][1] == want, "wrap-fast", "the fast path pushes Cow::from(line.trim_end_matches(' '))",
             D(pushes[0][1][1]) if pushes else "", "wrap_single_line's fast path pushes %s; expected Cow::from(line.trim_end_matches(' '))"
             % ([D(p[1][1]) for p in pushes]))
@@ -181,7 +181,7 @@ def _r4(prog, rep):
     TEXT = ("param", 1, b2.arg_names.get(1, "_1"))
     ret = s2.val((0, ()), b2.cfg.returns[0], "term")
     vals = [prog.simp(v, b2) for v in s2.phi_inputs(ret).values()] if ret[0] == "phi" else [prog.simp(ret, b2)]
-    want2 = ("call", "From::from", (("call", "str::trim_end_matches", (TEXT, SP)),))
+    want2 = ("call", "String::from", (("call", "str::trim_end_matches", (TEXT, SP)),))
     slow = [v for v in vals if v[0] == "call" and v[1] == "crate::fill::fill_slow_path"]
     fast = [v for v in vals if v not in slow]
     r2.check(len(fast) == 1 and fast[0] == want2, "fill-fast", "fill's fast path returns String::from(text.trim_end_matches(' '))",
